@@ -118,6 +118,12 @@ def run(ctx):
         if not dom.relclose(ro * bo, want, 1e-12):
             bad("oil density times Bo is not stock-tank oil plus dissolved gas", dict(T=To, p=po, api=api, gg=gg, Rsi=rsi), dict(got=ro * bo, expected=want))
         if k % 5 == 0:
+            # the same sweep held in the other containers a caller may use (2-D field, table column with its own labels, unsigned
+            # or read-only arrays): element by element the scalar value, whatever the shape or the labels
+            ps_int = [max(16, int(0.3 * pb)), int(0.9 * pb) + 1, int(1.5 * pb) + 1, int(2.4 * pb) + 1, max(17, int(0.5 * pb)), int(1.1 * pb) + 2]
+            rep_v = lambda what, i_, got_, want_: bad(what, i_, dict(got=got_, expected=want_))
+            for lab in ("density_Standing", "b_o_Standing", "solution_gor_Standing"):
+                ev += dom.check_vector_forms(lambda q, lab=lab: getattr(oil, lab)(To, q, api, gg, rsi), ps_int, rep_v, "oil." + lab, dict(T=To, api=api, gg=gg, Rsi=rsi, pb=pb))
             # arrays that sweep across the bubble point (a PVT-table sweep): every entry must equal the scalar call
             arr = np.array([0.3 * pb, 0.9 * pb, pb, 1.5 * pb, 2.4 * pb])
             for order in (arr, arr[::-1].copy(), arr[:2], arr[2:]):
